@@ -114,6 +114,34 @@ theorem C09_yaml_keeps_emptyish_skip (a : Adjustment) (h : emptyishSkip a.skip =
     (∃ kvs, mAdjustment a = .umap kvs ∧ kvs.lookup "skip" = none) :=
   yaml_keeps_emptyish_skip a h hrem
 
+/-! ### The marshalling models hard-code which fields exist and which are omitted when empty; this ties that
+    to the struct tags of the current source (regenerated `Gen/Structs`), so a changed tag — a new
+    `omitempty`, a renamed key, a reordered or added field — breaks this obligation at build time. -/
+
+theorem C09_struct_tags_as_modelled :
+    (Gen.struct_Pipeline.map fun f => (f.name, f.key)) =
+      [("Steps", "steps"), ("Env", "env"), ("RemainingFields", "remainingfields")] ∧
+    Gen.omitempty_Pipeline = ["Env"] ∧
+    (Gen.struct_CommandStep.map fun f => (f.name, f.key)) =
+      [("Key", "key"), ("Label", "label"), ("Command", "command"), ("Plugins", "plugins"), ("Env", "env"),
+       ("Signature", "signature"), ("Matrix", "matrix"), ("Cache", "cache"), ("RemainingFields", "remainingfields")] ∧
+    Gen.omitempty_CommandStep = ["Key", "Label", "Plugins", "Env", "Signature", "Matrix", "Cache"] ∧
+    (Gen.struct_GroupStep.map fun f => (f.name, f.key)) =
+      [("Key", "key"), ("Group", "group"), ("Steps", "steps"), ("RemainingFields", "remainingfields")] ∧
+    Gen.omitempty_GroupStep = ["Key"] ∧
+    (Gen.struct_Matrix.map fun f => (f.name, f.key)) =
+      [("Setup", "setup"), ("Adjustments", "adjustments"), ("RemainingFields", "remainingfields")] ∧
+    Gen.omitempty_Matrix = ["Adjustments"] ∧
+    (Gen.struct_MatrixAdjustment.map fun f => (f.name, f.key)) =
+      [("With", "with"), ("Skip", "skip"), ("RemainingFields", "remainingfields")] ∧
+    Gen.omitempty_MatrixAdjustment = ["Skip"] ∧
+    (Gen.struct_Cache.map fun f => (f.name, f.key)) =
+      [("Disabled", "disabled"), ("Name", "name"), ("Paths", "paths"), ("Size", "size"), ("RemainingFields", "remainingfields")] ∧
+    Gen.omitempty_Cache = ["Disabled", "Name", "Paths", "Size"] ∧
+    (Gen.struct_Signature.map fun f => (f.name, f.key)) =
+      [("Algorithm", "algorithm"), ("SignedFields", "signed_fields"), ("Value", "value")] ∧
+    Gen.omitempty_Signature = [] := by decide
+
 /-! Non-vacuity -/
 example : StableCommand { key := "k", label := "", command := "c", plugins := some [some { source := "docker#v1", config := .umap [] }],
                           env := none, signature := none, matrix := none, cache := none, rem := some [("agents", .omap [("q", .str "x")])] } := by
